@@ -5,6 +5,7 @@ import (
 	"strings"
 
 	"github.com/gookit/rux"
+	"github.com/gookit/rux/pkg/pprof"
 )
 
 func init() {
@@ -300,7 +301,7 @@ func c04Case(t *T) {
 // which that limit does not count, makes the executed chain longer.
 func c04LongCase(t *T) {
 	r := t.R
-	nRoute := r.IntN(31)         // route middleware
+	nRoute := r.IntN(31)          // route middleware
 	nGroup := r.IntN(62 - nRoute) // group middleware; group+route+main <= 62
 	if chance(r, 1, 4) {
 		nGroup = 61 - nRoute // the registration limit exactly
@@ -489,12 +490,14 @@ func tail(s []string, n int) []string {
 // ---------------------------------------------------------------------------
 
 func runC12(e *Env) {
-	e.Rule = "registration programs with emphasis on scope: Group/Controller nested to depth 5 with clean prefixes (also spelled without leading / with trailing slash; '' and '/' at top level), sibling groups with different middleware, Use between two routes of one group, routes before/inside/between/after groups, and a uniquely named PROBE route registered right after every Group return. Observed: Route.Path() and len(Route.Handlers()) right after registration and at the end, the enter/leave trace of one request per route at the model's full path, and 404 for the route's path without its prefixes. Oracle: reference scope model (prefix concatenation, middleware in effect at registration time, state restored after Group returns). Non-trivial: >= 2 sibling groups, a route after a Group return, or a Use inside a group; distinct by program. A fifth of the programs run on a StrictLastSlash router with route paths ending in a slash. A group may contain one route whose own path is just a variable (GET(\"/{id:[0-9]{3}}\") inside Group(\"/g1\")): its literal head is the group prefix, which is also the beginning of the heads of everything nested below. On routers with a route cache (capacity 1, 2 or 1000) every dynamic request is repeated at once and once more after all other routes were requested."
+	e.Rule = "registration programs with emphasis on scope: Group/Controller nested to depth 5 with clean prefixes (also spelled without leading / with trailing slash; '' and '/' at top level), sibling groups with different middleware, Use between two routes of one group, routes before/inside/between/after groups, and a uniquely named PROBE route registered right after every Group return. Observed: Route.Path() and len(Route.Handlers()) right after registration and at the end, the enter/leave trace of one request per route at the model's full path, and 404 for the route's path without its prefixes. Oracle: reference scope model (prefix concatenation, middleware in effect at registration time, state restored after Group returns). Non-trivial: >= 2 sibling groups, a route after a Group return, or a Use inside a group; distinct by program. A fifth of the programs run on a StrictLastSlash router with route paths ending in a slash. A group may contain one route whose own path is just a variable (GET(\"/{id:[0-9]{3}}\") inside Group(\"/g1\")): its literal head is the group prefix, which is also the beginning of the heads of everything nested below. On routers with a route cache (capacity 1, 2 or 1000) every dynamic request is repeated at once and once more after all other routes were requested. Part stock-group-helper: pkg/pprof.UsePProf (a stock user of Group) called for 2..4 routers of one process, at top level and inside groups with and without middleware."
 	e.Assumptions = []string{
 		"group prefixes are clean non-root prefixes as in the property's quantifier ('' and '/' only for top-level groups)",
 		"the scope model in harness/mon/prog.go is the trusted statement of the documented group semantics",
 	}
 	e.RunCases("programs", e.N(15000, 3000000), 0, c12Case)
+	e.RunCases("stock-group-helper", e.N(60, 600), 0, c12PProf)
+	e.Require("stock_group_helper.routers_checked", 100)
 	e.Require("routes.checked", 10000)
 	e.Require("routes.probe_after_group", 2000)
 	e.Require("programs.siblings", 500)
@@ -660,4 +663,82 @@ func outcomeEvents(r *Rec) []string {
 		return nil
 	}
 	return r.Events
+}
+
+// c12PProf: pkg/pprof.UsePProf mounts its routes in Group("/debug") - a stock user of Group. Called for
+// several routers of one process, at top level and inside groups with middleware, every call registers the
+// same twelve routes under the prefixes and behind the middleware in effect at THAT call.
+func c12PProf(t *T) {
+	r := t.R
+	n := 2 + r.IntN(3)
+	type site struct {
+		prefix string
+		mw     bool
+	}
+	var sites []site
+	for i := 0; i < n; i++ {
+		switch r.IntN(3) {
+		case 0:
+			sites = append(sites, site{})
+		case 1:
+			sites = append(sites, site{prefix: fmt.Sprintf("/admin%d", i), mw: true})
+		default:
+			sites = append(sites, site{prefix: fmt.Sprintf("/ops%d", i)})
+		}
+	}
+	t.Describe(func() any { return map[string]any{"UsePProf_calls(prefix, group middleware)": fmt.Sprint(sites)} })
+	t.AutoSample()
+	t.NonTrivial(fmt.Sprint(sites))
+	var routers []*rux.Router
+	for i, st := range sites {
+		router := rux.New()
+		id := fmt.Sprintf("guard%d", i)
+		reg := func() { pprof.UsePProf(router) }
+		if pv, panicked := catch(func() {
+			switch {
+			case st.prefix == "":
+				reg()
+			case st.mw:
+				router.Group(st.prefix, reg, func(c *rux.Context) { recOf(c).Ev("enter(%s)", id); c.Next() })
+			default:
+				router.Group(st.prefix, reg)
+			}
+		}); panicked {
+			t.Fail("registration-panic", "UsePProf call %d (%+v) panicked: %v", i+1, st, pv)
+			return
+		}
+		routers = append(routers, router)
+	}
+	for i, st := range sites { // checked after ALL calls were made: a later call must not touch an earlier router
+		router := routers[i]
+		t.Count("stock_group_helper.routers_checked", 1)
+		want := map[string]bool{}
+		for _, p := range []string{"GET /pprof", "GET /heap", "GET /goroutine", "GET /allocs", "GET /block", "GET /threadcreate", "GET /cmdline", "GET /profile", "GET /symbol", "POST /symbol", "GET /trace", "GET /mutex"} {
+			f := strings.SplitN(p, " ", 2)
+			want[f[0]+" "+st.prefix+"/debug"+f[1]] = true
+		}
+		got := map[string]bool{}
+		for _, ri := range router.Routes() {
+			for _, m := range ri.Methods {
+				got[m+" "+ri.Path] = true
+			}
+		}
+		if d := setDiff(want, got); d != "" {
+			t.Fail("route-path", "UsePProf call %d of %d (prefix %q): the registered (method path) pairs differ from /debug/* under that prefix: %s", i+1, n, st.prefix, d)
+			return
+		}
+		rec, pv, panicked := Serve(router, NewReq("GET", st.prefix+"/debug/cmdline"))
+		if panicked {
+			t.Fail("servehttp-panic", "GET %s/debug/cmdline panicked: %v", st.prefix, pv)
+			return
+		}
+		var wantEv []string
+		if st.mw {
+			wantEv = []string{fmt.Sprintf("enter(guard%d)", i)}
+		}
+		if rec.Status() != 200 || !eventsEqual(wantEv, rec.Events) {
+			t.Fail("route-chain-"+classifyTrace(wantEv, rec.Events), "UsePProf call %d of %d (prefix %q, group middleware %v): GET %s/debug/cmdline answered %d with middleware trace %v, expected 200 with %v", i+1, n, st.prefix, st.mw, st.prefix, rec.Status(), rec.Events, wantEv)
+			return
+		}
+	}
 }
